@@ -7,7 +7,8 @@ Re-runs a failing case with two observers installed in the library's module name
 The observers change no result.  A failing case is dismissed only if some comparison operand sat
 strictly inside the band (0.3*eps, 1000*eps) around its threshold centre - i.e. the case is not
 in the property's domain ("nothing sits inside the library's tolerance band") at a decision the
-library actually took - or a hashed float sat within 1% of a rounding step of a boundary.
+library actually took - or a hashed float sat within 1% of a rounding step of a boundary *and* that boundary
+separated it from another hashed float less than 2% of a step away (boundary_split).
 """
 import sys
 import math
@@ -133,6 +134,7 @@ def _round(x, nd=None):
             _log["round"] += 1
             if abs(frac - 0.5) < 0.01:
                 _log["boundary"].append((x, nd))
+            _log["rounded"].setdefault(nd, set()).add(x)
     if nd is None:
         return builtins.round(x)
     return builtins.round(x, nd)
@@ -162,7 +164,7 @@ class Monitors(object):
             if "round" not in d and (".geometry." in name or name.endswith("utils.vector")):
                 d["round"] = _round
                 self.injected.append(d)
-        _log = {"cmp": 0, "fragile": [], "min_gap": None, "round": 0, "boundary": []}
+        _log = {"cmp": 0, "fragile": [], "min_gap": None, "round": 0, "boundary": [], "rounded": {}}
         self.log = _log
         return self
 
@@ -193,6 +195,32 @@ def examine(prop, case, ctx, fail, modes=("eps", "round")):
         return None  # observers perturbed the outcome: ignore them, admission still stands
     if "eps" in modes and mon.log["fragile"]:
         return "tolerance_band"
-    if "round" in modes and mon.log["boundary"]:
+    if "round" in modes and mon.log["boundary"] and boundary_split(mon.log):
         return "rounding_boundary"
     return None
+
+
+def boundary_split(log):
+    """A hashed float near a rounding boundary can only have influenced the run if the boundary actually separated
+    it from another hashed float that is the same quantity up to float noise (two evaluations of one coordinate,
+    offset or direction component rounding apart - that is how a rounding boundary makes equal things hash
+    differently).  True iff such a pair exists: two floats rounded at the same number of digits, less than 2% of a
+    rounding step apart, whose roundings differ."""
+    near = {}
+    for x, nd in log["boundary"]:
+        near.setdefault(nd, set()).add(x)
+    for nd, xs in near.items():
+        vals = sorted(log["rounded"].get(nd, ()))
+        if len(vals) < 2:
+            continue
+        import bisect
+
+        step = 10.0 ** (-nd)
+        for x in xs:
+            i = bisect.bisect_left(vals, x - 0.02 * step)
+            while i < len(vals) and vals[i] <= x + 0.02 * step:
+                y = vals[i]
+                if y != x and builtins.round(y, nd) != builtins.round(x, nd):
+                    return True
+                i += 1
+    return False
